@@ -4,13 +4,13 @@ import os, sys, random, math, types
 from fractions import Fraction
 import vlib
 
-LEAN_TARGETS = ['CvxVerif.Props.C08']
+LEAN_TARGETS = ['CvxVerif.Props.C08', 'CvxVerif.Props.C08Pack']
 MODEL_FILES = ['CvxVerif.Model.Kernels', 'CvxVerif.Proofs.Kernels']
 LEVEL = 'proof'
 TRUSTED = ['hand-written model lean/CvxVerif/Model/Kernels.lean (transcribed from the Python reference implementations in misc.py), tied by '
            'exact comparison with both implementations on dyadic data',
            'the Python fall-backs are obtained by executing the current misc.py with the line `use_C = True` replaced by `use_C = False`']
-ASSUMPTIONS = ['pack/unpack/scale2/max_step on s blocks involve sqrt(2) / eigenvalues: checked through identities with tolerance 1e-9, not modelled exactly']
+ASSUMPTIONS = ['scale2/max_step on s blocks involve eigenvalues: checked through identities with tolerance 1e-9, not modelled exactly; pack/unpack are modelled exactly up to the factor sqrt(2), which enters the comparison as a float (tolerance 1e-12)']
 
 def frs(x):
     f = Fraction(x); return str(f.numerator) if f.denominator == 1 else '%d/%d' % (f.numerator, f.denominator)
@@ -192,6 +192,39 @@ def correspond(ctx):
                     if margins and abs(t + min(margins)) > 1e-8 * (1 + abs(t)):
                         ctx.violation('c08:max-step:' + name, "x + max_step(x) e is not on the boundary of the cone with 's' blocks (t = %r, expected %r; sigma %s; %s implementation)"
                                       % (t, -min(margins), 'given' if want_sigma else 'omitted', name), {'dims': d, 'mnl': mnl})
+    # ---- pack / unpack against the Lean model (Model/Kernels.lean packBlk / unpackBlk, theorems in Props/C08Pack.lean).  The kernels use
+    # r = sqrt(2); packBlk is affine in r and unpackBlk in 1/r (x / 0 = 0 in Lean), so the model is evaluated exactly at r = 0 and r = 1 and
+    # combined with the floating-point sqrt(2) here
+    plines, pmeta = [], []
+    for name, M in impls:
+        for it in range(12 if ctx.quick() else 300):
+            k = rng.randint(0, 4)
+            blk = [float(rng.randint(-8, 8)) / rng.choice([1, 2, 4]) for _ in range(k * k)]
+            pk = [float(rng.randint(-8, 8)) / rng.choice([1, 2, 4]) for _ in range(k * (k + 1) // 2)]
+            d1 = {'l': 0, 'q': [], 's': [k]}
+            P = matrix(5.0, (k * (k + 1) // 2, 1)); M.pack(matrix(blk, (k * k, 1), 'd'), P, d1)
+            U = matrix(7.0, (k * k, 1)); M.unpack(matrix(pk, (len(pk), 1), 'd'), U, d1)
+            for r_ in ('0', '1'):
+                plines.append('packblk r=%s k=%d x=%s' % (r_, k, vtok(blk))); pmeta.append(('pack', name, k, list(P), r_))
+                plines.append('unpackblk r=%s k=%d x=%s' % (r_, k, vtok(pk))); pmeta.append(('unpack', name, k, list(U), r_))
+    pout = vlib.drive('C08', plines) if plines else []
+    def pvec(t): return [] if t == '-' else [float(Fraction(a)) for a in t.split(',')]
+    for q in range(0, len(plines), 4):
+        (_, name, k, P, _), (_, _, _, U, _) = pmeta[q], pmeta[q + 1]
+        P0, U0, P1, U1 = pvec(pout[q]), pvec(pout[q + 1]), pvec(pout[q + 2]), pvec(pout[q + 3])
+        ident += 2
+        if len(P0) != len(P) or len(U0) != len(U):
+            ctx.violation('c08:pack-model:' + name, 'pack / unpack of an order-%d block: lengths differ from the model' % k, {'k': k}); continue
+        expP = [a + math.sqrt(2.0) * (b - a) for a, b in zip(P0, P1)]
+        if any(abs(a - b) > 1e-12 * (1 + abs(b)) for a, b in zip(P, expP)):
+            ctx.violation('c08:pack-model:' + name, 'pack of an order-%d block differs from the model packBlk (%s implementation): %r vs %r' % (k, name, P, expP), {'k': k, 'line': plines[q]})
+        expU = [a + (b - a) / math.sqrt(2.0) for a, b in zip(U0, U1)]
+        for j in range(k):
+            for i in range(k):
+                if i < j: continue          # the strict upper triangle is not part of the result (the C kernel leaves it, the Python one rescales it)
+                got, want = U[j * k + i], expU[j * k + i]
+                if abs(got - want) > 1e-12 * (1 + abs(want)):
+                    ctx.violation('c08:unpack-model:' + name, 'unpack of an order-%d block: entry (%d,%d) is %r, model %r (%s implementation)' % (k, i, j, got, want, name), {'k': k, 'line': plines[q + 1]})
     out = vlib.drive('C08', lines)
     dis = 0
     for l, o, m, name in zip(lines, obs, out, meta):
